@@ -95,6 +95,8 @@ ASSUME Units(<<>>) = {}
 ASSUME ApplyUnits(V3(<<>>), P, {}, 1) = V3(<<>>)
 ASSUME LET i == ApplyAll(V3(<<>>), P) IN
        i.blk[16] = H(2, 2) /\ i.blk[17] = M(1, 1) /\ i.j[0] = J(1, FALSE, <<>>) /\ i.m[1].gen = 2 /\ i.m[0].gen = 1
+ASSUME \A base \in {V3(<<>>), V3(<<H(1, 1), H(3, 1), X>>), EmptyImage} :
+         \A n \in 0 .. Len(P) : ApplyAll(base, SubSeq(P, 1, n)) = ApplyUnits(base, SubSeq(P, 1, n), Units(SubSeq(P, 1, n)), 1)
 ASSUME LET i == ApplyUnits(V3(<<>>), P, {<<1, 1>>, <<3, 0>>}, 1) IN
        i.blk[16] = Z /\ i.blk[17] = T(2, 1, "") /\ i.j[0] = JZ /\ MetaPick(i.m).recs = 1
 ASSUME Cardinality(CrashImagesOf(V3(<<>>), P, SUBSET Units(P))) = 24     \* unit <<1,1>> is masked by <<4,0>>
